@@ -111,6 +111,8 @@ def wrapFile (w : World) (p : Path) : Option (Option StaticView) :=
       let plainView (rd : Nat → Nat → Bytes) : StaticView :=
         { size := size, mtime := f.mtime, read := rd, seekOk := fun off => off ≤ osSeekMax }
       let decrypting (key : Bytes) : Option (Nat → Nat → Bytes) :=
+        -- sector numbers are int32: an image of more than 2^31−1 sectors is refused
+        if size > Viso.maxSector * Crypt.sectorSize then none else
         (Crypt.parseTable (fileRd f)).map (fun regs =>
           Crypt.readDec (Crypt.aesSector key) (Crypt.gaps regs) (fileRd f) size 0)
       match redumpKey w p with
